@@ -101,14 +101,14 @@ def to_lean(t, fun_names=None):
     return go(t)
 
 
-GLUE_TACTIC = ('  first\n  | rfl\n' + ''.join('  | (congr! %d <;> first | ring1 | norm_num)\n' % d for d in range(1, 10))).rstrip('\n')
+GLUE_TACTIC = ('  first\n  | rfl\n' + ''.join('  | (congr! %d <;> (first | ring1 | (norm_num; done)))\n' % d for d in range(1, 10))).rstrip('\n')
 
 
 def glue_theorem(name, binders, lhs, rhs_term, unfold, fun_names=None, simp_extra=()):
     """theorem <name> <binders> : <lhs> = <printed contract term>, closed by unfolding + congruence + ring"""
     rhs = to_lean(rhs_term, fun_names)
     simp = ', '.join(list(unfold) + list(simp_extra))
-    return 'theorem %s %s :\n    %s = %s := by\n  simp only [%s]\n%s\n' % (name, binders, lhs, rhs, simp, GLUE_TACTIC)
+    return 'theorem %s %s :\n    %s = %s := by\n  try simp only [%s]\n%s\n' % (name, binders, lhs, rhs, simp, GLUE_TACTIC)
 
 
 def theorem_names(text):
@@ -147,6 +147,22 @@ class LeanJob:
         cmd = 'cd %s && (timeout %d lean %s > %s 2>&1; echo $? > %s.tmp; mv %s.tmp %s)' % (self.dir, timeout, os.path.basename(self.file), self.out, self.rc, self.rc, self.rc)
         self.proc = subprocess.Popen(['bash', '-c', cmd], stdout=subprocess.DEVNULL, stderr=subprocess.DEVNULL)
         self._res = None
+        self._pid = os.getpid()
+        import atexit
+        atexit.register(self.cleanup)
+
+    def cleanup(self):
+        if os.getpid() != self._pid:
+            return
+        try:
+            self.proc.wait(timeout=5)
+        except Exception:
+            try:
+                self.proc.kill()
+            except Exception:
+                pass
+        import shutil
+        shutil.rmtree(self.dir, ignore_errors=True)
 
     def result(self):
         """blocks (polling: usable from forked children) until the compiler is done"""
